@@ -172,9 +172,9 @@ JSniff(e) ==
   \* the remaining accessors are consistent with the version accessor
   \cup (IF e.res # "" /\ "amajor" \in DOMAIN e /\ e.aversion # e.amajor \o "." \o e.aminor THEN {"sniff.accessors.major-minor"} ELSE {})
   \* an exact declaration of a readable format is detected (any layout of it)
-  \cup (IF d.object /\ DStr(d, "bomFormat") = "CycloneDX" /\ DStr(d, "specVersion") \in {"1.3", "1.4", "1.5"}
+  \cup (IF "preread" \notin DOMAIN e /\ d.object /\ DStr(d, "bomFormat") = "CycloneDX" /\ DStr(d, "specVersion") \in {"1.3", "1.4", "1.5"}
            /\ d.spdxVersion.t \in {"absent", "string"} /\ e.res # CDXF(DStr(d, "specVersion")) THEN {"sniff.missed"} ELSE {})
-  \cup (IF d.object /\ d.bomFormat.t = "absent" /\ d.specVersion.t = "absent" /\ DStr(d, "spdxVersion") = "SPDX-2.3"
+  \cup (IF "preread" \notin DOMAIN e /\ d.object /\ d.bomFormat.t = "absent" /\ d.specVersion.t = "absent" /\ DStr(d, "spdxVersion") = "SPDX-2.3"
            /\ e.res # SPDXJ("2.3") THEN {"sniff.missed"} ELSE {})
 
 Outcomes(e) == {"total." \o e.fmt \o "." \o o.kind : o \in {x \in {e.w1, e.r1, e.w2, e.r2} : x.kind \in {"panic", "hang", "both", "neither", "exit"}}}
